@@ -200,6 +200,8 @@ func concretise(c tcase) *proxyv1alpha1.UpstreamCluster {
 		sv.ClientCAData = []byte("-----BEGIN CERTIFICATE-----\nnot base64!!\n-----END CERTIFICATE-----\n")
 	case "caonly":
 		sv.ClientCAData = scert
+	case "caempty": // an EMPTY, non-nil bundle (what a Go client or protobuf delivers for "cleared"): no client CA
+		sv.ClientCAData = []byte{}
 	}
 	// flow control schema
 	if !o.NoSchema {
